@@ -28,6 +28,7 @@ static REF_MPI ref_mpi;
 /* ---- result string ---- */
 static char *res;
 static size_t res_n, res_cap;
+static long op_serial = 0;
 static void r_reset(void) { res_n = 0; if (res) res[0] = 0; }
 static void r_put(const char *s) {
   size_t l = strlen(s);
@@ -677,6 +678,11 @@ int main(int argc, char *argv[]) {
     r_reset();
     r_put("");
     r_reset();
+    /* no primitive of ref_mpi.c may depend on the reduce byte limit (only the gather/part loops chunk by it): alternate
+       between the default and a limit of a few items, so that a primitive that starts to work in pieces is exercised
+       with several pieces (the model knows nothing about the limit) */
+    op_serial++;
+    ref_mpi->reduce_byte_limit = (op_serial % 2) ? 1000000 : 40;
     alarm(10);
     if (0 == strcmp(op, "finddest")) {
       rc = op_finddest();
